@@ -534,17 +534,17 @@ package mcp
 //@   init newHTTPServerHandler, withTransportSessionManager, withServerTransportLogger, withoutTransportSession, withServerPOSTSSEEnabled, withTransportGetSSEEnabled, withTransportNotificationBufferSize, withTransportStatelessMode, withTransportHTTPContextFuncs
 //@   final[C03,C04,C13] logger, sessionManager, requestHandler, enableSession, isStateless, responderFactory, notificationBufferSize, enablePostSSE, enableGetSSE, httpContextFuncs, serverPath, responseManager
 //@ type net/http.Request
-//@   final Method, URL, Header, Body
+//@   final[C03,C04,C06,C11,C13] Method, URL, Header, Body
 //@ type net/url.URL
-//@   final Path
+//@   final[C03,C04,C06,C11,C13] Path
 
 //@ func jsonResponder.respond
 //@   modifies *, status(w), hval
-//@   ensures[C03 json-responder-writes-a-status-unless-it-fails] ret == nil ==> status(w) != 0
+//@   ensures[C03,C06 json-responder-writes-a-status-unless-it-fails] ret == nil ==> status(w) != 0
 //@   ensures[C04 no-session-header-when-stateless] r.isStateless ==> hval(w.Header(), "Mcp-Session-Id") == old(hval(w.Header(), "Mcp-Session-Id"))
 //@ func sseResponder.respond
 //@   modifies *, status(w), hval
-//@   ensures[C03 sse-responder-writes-a-status-unless-it-fails] ret == nil ==> status(w) != 0
+//@   ensures[C03,C06 sse-responder-writes-a-status-unless-it-fails] ret == nil ==> status(w) != 0
 //@   ensures[C04 no-session-header-when-stateless] r.isStateless ==> hval(w.Header(), "Mcp-Session-Id") == old(hval(w.Header(), "Mcp-Session-Id"))
 //@ type jsonResponder
 //@   init newJSONResponder, withJSONStatelessMode
@@ -555,7 +555,7 @@ package mcp
 
 //@ func httpServerHandler.respondEncodingFailure
 //@   modifies *, status(w), hval
-//@   ensures[C03 encoding-failure-is-answered] status(w) != 0
+//@   ensures[C03,C06 encoding-failure-is-answered] status(w) != 0
 
 // ---------------------------------------------------------------------------
 // C03 / C01 / C14 — what the method handlers answer
